@@ -18,6 +18,12 @@ CLAIMED = {
   text="Finite and fully static: the decision structure of `unmarshal` and of each (*T).Unmarshal is evaluated on the typed SSA for all 2x32x256 header values (everything else Unknown, both branch outcomes followed) and compared with the registry table written from IANA/RFC text: dispatch table both ways (C07-TAB), each Marshal's header constants dispatch back to the same type (C07-SELF), no decoder can return nil for a foreign (PT,FMT) and can for its own (C07-GRD), RawPacket keeps the parameter slice itself (C07-RAW). Every obligation must be discharged; an undecided one fails. Proof over the abstract semantics of checker/pe, not a test: no rtcp code is executed.",
   note="Trusted: go/types+go/ssa (x/tools v0.29.0), the evaluator's transfer functions (checker/pe), registry table checker/spec/registry.go, Header field names Type/Count, non-nil package error variables (checked by C18-GLOB). Version bits fixed to 2. Value-level acceptance of own-kind bodies is not covered. Known findings F9, F10a-c (known_findings.json).",
   design="DESIGN.md §2 C07"),
+ "C05": dict(
+  level="other",
+  technique="static analysis: abstract interpretation of go/ssa (linear constraints + linear congruences) of every Marshal/MarshalSize/Header/Len, with effect-analysis premises, a type-shape rule for the reflective XR sizes and SSA shape rules for CompoundPacket",
+  text="Decides, for every receiver value at once (all list lengths, all text/extension lengths up to 65532 bytes): DET - MarshalSize/Header/Len are effect-free and Marshal never modifies its receiver copy (so MarshalSize() denotes one value MS); ALN - T.MarshalSize evaluated on an unconstrained receiver is entailed to be a multiple of 4 at every return; LEN - at every nil-error return of T.Marshal, len(result) = MS is entailed, MS coming both from the calls inside Marshal and from re-evaluating MarshalSize in the return state; HDR - the value written to the header length field satisfies 4*(Length+1) = len(result); CNT - for SR/RR/SDES/BYE the count field equals the list length (no uint8 wrap can survive the guards); ACC - Header() and Len() re-evaluated in the return state agree with the header written and with len(result); XR - wireSize reads structure only, fixed parts of every report block are multiples of 4 and element sizes are checked (three block types with 1- or 2-byte elements are open findings F14a-c); SUM/CAT - CompoundPacket.MarshalSize and rtcp.Marshal fold every member. Level other, not proof: the size domain is cut at 65532 bytes, the placement of the header bytes is a syntactic flow rule, version/PT/FMT are left to C07-SELF.",
+  note="Trusted: go/ssa, checker/num, checker/effects, models of binary/copy/append/make, reflect's Type.Size/NumField/Len being structural. TransportLayerCC and RawPacket headers are caller-supplied (only LEN/ALN resp. LEN decided). Engine undecided = failure.",
+  design="DESIGN.md §2 C05"),
  "C18": dict(
   level="other",
   technique="static analysis: flow-insensitive alias/effect (write-set) analysis over go/ssa with summaries over the VTA call graph",
